@@ -56,6 +56,10 @@ def ohe_rules(repo):
             illegal = 0
     if ig and len(ig[0].body) == 1 and isinstance(ig[0].body[0], ast.Assign):
         ignore = const_value(ig[0].body[0].value)
+    vec = [s_ for s_ in w.node.body if isinstance(s_, ast.Assign) and unparse(s_.targets[0]) == "one_hot_mapping[ignore_idxs]"]
+    if ignore is None and vec:
+        ignore = const_value(vec[0].value)
+        ig = ig or vec
     ok_al = bool(al) and len(al[0].body) == 1 and unparse(al[0].body[0]) == "one_hot_mapping[idx] = i" and \
         unparse(al[0].iter) == "enumerate(alpha_idxs)" and unparse(al[0].target) == "(i, idx)"
     # reader
@@ -87,6 +91,8 @@ def ohe_rules(repo):
             out.append(violation("R-TABLE", r, role, "reader has no `%s` arm for the writer's sentinels (ignore=%s illegal=%s)" % (miss, ignore, illegal), r.node))
         else:
             out.append(unrecognised("R-TABLE", r, role, "reader arms not recognised"))
+    elif illegal is None or ignore is None:
+        out.append(unrecognised("R-TABLE", r, role, "the writer's sentinels were not recognised (ignore=%s illegal=%s): cannot compare with the reader" % (ignore, illegal)))
     elif (r_skip, r_raise) != (ignore, illegal):
         out.append(violation("R-TABLE", r, role, "reader skips %s / raises on %s but the writer stores ignore=%s / illegal=%s" % (r_skip, r_raise, ignore, illegal), r.node,
                              witness={"writer": {"ignore": ignore, "illegal": illegal}, "reader": {"skip": r_skip, "raise": r_raise}}))
